@@ -2,7 +2,7 @@ SPECIFICATION DSpec
 CONSTANTS
   Peers <- MCPeers1
   T = 3
-  MaxSeq = 9
+  MaxSeq = 7
 VIEW DetView
 INVARIANT EmitAllDet
 CHECK_DEADLOCK FALSE
